@@ -169,7 +169,7 @@ def break_reference(decls, rng):
 
 def build_plan(tier, rng):
     plan = Plan()
-    ndefs = 60 if tier == "quick" else 3000
+    ndefs = 60 if tier == "quick" else 10000
     gen = ag.DefGen(rng)
     prev = None
     for di in range(ndefs):
